@@ -35,7 +35,8 @@ class C07(CleanBase):
                 extra += [G.op_match_snap(1, t2, [b"v1"]), G.op_match_doc("standjson", 1, t2, b'{"a":1}'), G.op_end(t2)]
             ci, upd = r.choice(G.ENVS)
             sort = r.chance(1, 2)
-            ops = setup + cfg + run + extra + [G.op_setenv(ci, upd), {"op": "dumpfs"}, {"op": "clean", "sort": sort, "count": info["count"]}, {"op": "dumpfs"}]
+            colour = r.chance(1, 3)      # Clean prints its summary with ANSI colours
+            ops = setup + cfg + run + extra + [G.op_setenv(ci, upd), {"op": "dumpfs"}, {"op": "clean", "sort": sort, "count": info["count"], "colour": colour}, {"op": "dumpfs"}]
             cases.append({"ci": False, "updvar": "unset", "colour": False, "ops": ops,
                           "meta": {"mode": "ci=%s upd=%s sort=%s" % (ci, upd, sort), "nontest": nontest}})
         # `%` in names (outside the modelled Sprintf, finding K8): whatever file the standalone calls really
